@@ -496,7 +496,7 @@ func (f *file) Write(p []byte) (int, error) {
 	if f.wpos+len(p) <= len(f.n.data) {
 		copy(f.n.data[f.wpos:f.wpos+len(p)], p)
 	} else {
-		f.n.data = append(f.n.data[:f.wpos:f.wpos], p...)
+		f.n.data = append(f.n.data[:f.wpos], p...)
 	}
 	f.wpos += len(p)
 	f.fs.end(op)
